@@ -10,7 +10,7 @@ package log
 //@ func (*logger).LogResults
 //@   sig l, ctx, results
 //@   locals bw: *bufio.Writer ;; err: error ;; timec: <-chan time.Time ;; result: github.com/v-byte-cpu/sx/pkg/scan.Result ;; ok: bool ;; err: error
-//@   props C14 C12 C16 C08 C03 C09 C10 C11 C13 C20
+//@   props C14 C12 C16 C08 C03 C09 C10 C11 C13 C20 C06 C19
 //@   observe Write, (*logger).Error, (*bufio.Writer).Flush, time.After
 //@   loop 0 row cancel:    [ctxdone ; call Flush(_)] -> exit
 //@   loop 0 row closed:    [recv results as (v, false) ; call Flush(_)] -> exit
@@ -23,7 +23,7 @@ package log
 // (one line per result, one write, never split); on failure nothing is written.
 //@ func (*JSONResultWriter).Write
 //@   sig arg0, w, result
-//@   props C14 C08 C11 C16 C03 C09 C10 C12 C13 C20
+//@   props C14 C08 C11 C16 C03 C09 C10 C12 C13 C20 C06 C19
 //@   observe MarshalJSON, fmt.Fprintf
 //@   entry row fail: [call MarshalJSON(result) as (d, e)] when e != nil && ret == e -> exit
 //@   entry row line: [call MarshalJSON(result) as (d, e) ; call fmt.Fprintf(w, "%s\n", bind_a)] when e == nil && ret == nil && len(a) == 1 && istype(a[0], []byte) && astype(a[0], []byte) == d -> exit
@@ -32,7 +32,7 @@ package log
 // is ever forgotten (=> every distinct host once, at its first sighting)
 //@ func (*UniqueLogger).uniqResults$1
 //@   locals member: struct{} ;; set: map[string]interface{} ;; result: github.com/v-byte-cpu/sx/pkg/scan.Result ;; ok: bool ;; id: string ;; exists: bool
-//@   props C14 C12 C08 C16 C03 C09 C10 C11 C13 C20
+//@   props C14 C12 C08 C16 C03 C09 C10 C11 C13 C20 C06 C19
 //@   observe ID
 //@   loop 0 row cancel: [ctxdone ; close results] -> exit
 //@   loop 0 row closed: [recv in as (v, false) ; close results] -> exit
@@ -42,14 +42,14 @@ package log
 //@   loop 0 row first_c: [recv in as (v, true) ; call ID(v) as (id) ; ctxdone ; close results] when !pre(mapin(set, id)) -> exit
 //@ func (*UniqueLogger).LogResults
 //@   sig l, ctx, results
-//@   props C14 C08 C16 C03 C09 C10 C11 C12 C13 C20
+//@   props C14 C08 C16 C03 C09 C10 C11 C12 C13 C20 C06 C19
 //@   observe uniqResults, LogResults
 //@   entry row wrap: [call uniqResults(l, ctx, results) as (u) ; call LogResults(l.logger, ctx, bind_u2)] when u == u2 -> exit
 
 // plain writer: String once, one Fprintf of that string followed by a newline; its error is the result
 //@ func (*PlainResultWriter).Write
 //@   sig arg0, w, result
-//@   props C14 C08 C16 C03 C09 C10 C11 C12 C13 C20
+//@   props C14 C08 C16 C03 C09 C10 C11 C12 C13 C20 C06 C19
 //@   observe String, fmt.Fprintf
 //@   entry row line: [call String(result) as (s) ; call fmt.Fprintf(w, "%s\n", bind_a) as (n, e)] when len(a) == 1 && istype(a[0], string) && astype(a[0], string) == s && ret == e -> exit
 
@@ -57,23 +57,23 @@ package log
 // every option applied once, in order; --json selects the JSON writer
 //@ func JSON$1
 //@   sig l
-//@   props C14 C08 C16 C03 C09 C10 C11 C12 C13 C20
+//@   props C14 C08 C16 C03 C09 C10 C11 C12 C13 C20 C06 C19
 //@   modifies l.rw
 //@   ensures isptr(l.rw, JSONResultWriter)
 //@ func Plain$1
 //@   sig l
-//@   props C14 C08 C16 C03 C09 C10 C11 C12 C13 C20
+//@   props C14 C08 C16 C03 C09 C10 C11 C12 C13 C20 C06 C19
 //@   modifies l.rw
 //@   ensures isptr(l.rw, PlainResultWriter)
 //@ func FlushInterval$1
 //@   sig l
-//@   props C14 C08 C16 C03 C09 C10 C11 C12 C13 C20
+//@   props C14 C08 C16 C03 C09 C10 C11 C12 C13 C20 C06 C19
 //@   modifies l.flushInterval
 //@   ensures l.flushInterval == interval
 //@ func NewLogger
 //@   sig w, label, opts
 //@   locals zapl: *go.uber.org/zap.Logger ;; err: error ;; l: *logger ;; o: LoggerOption
-//@   props C14 C08 C16 C03 C09 C10 C11 C12 C13 C20
+//@   props C14 C08 C16 C03 C09 C10 C11 C12 C13 C20 C06 C19
 //@   observe LoggerOption, zap.NewProduction
 //@   entry row zaperr: [call zap.NewProduction(_) as (z, e)] when e != nil && ret0 == nil && ret1 == e -> exit
 //@   entry row init:   [call zap.NewProduction(_) as (z, e)] when e == nil && l.w == w && l.label == label && isptr(l.rw, PlainResultWriter) && l.zapl == z -> loop 0
@@ -81,38 +81,38 @@ package log
 //@   loop 0 row done:  [] when isptr(ret0, logger) && asptr(ret0, logger) == l && ret1 == nil -> exit
 //@ func NewUniqueLogger
 //@   sig logger
-//@   props C14 C08 C16 C03 C09 C10 C11 C12 C13 C20
+//@   props C14 C08 C16 C03 C09 C10 C11 C12 C13 C20 C06 C19
 //@   ensures ret.logger == logger
 //@ func (*UniqueLogger).uniqResults
 //@   sig arg0, ctx, in
 //@   locals results: chan github.com/v-byte-cpu/sx/pkg/scan.Result
-//@   props C14 C12 C08 C16 C03 C09 C10 C11 C13 C20
+//@   props C14 C12 C08 C16 C03 C09 C10 C11 C13 C20 C06 C19
 //@   entry row start: [go (*UniqueLogger).uniqResults$1{results: bind_u, in: bind_i, ctx: bind_c}] when ret == u && i == in && c == ctx -> exit
 
 // option constructors: each returns its own option closure over exactly its argument (verified here, inlined at call sites)
 //@ func FlushInterval
 //@   sig interval
 //@   inline
-//@   props C14 C08 C16 C03 C09 C10 C11 C12 C13 C20
+//@   props C14 C08 C16 C03 C09 C10 C11 C12 C13 C20 C06 C19
 //@   ensures closureof(ret, "FlushInterval$1") && capt(ret, "interval") == interval
 //@ func JSON
 //@   inline
-//@   props C14 C08 C16 C03 C09 C10 C11 C12 C13 C20
+//@   props C14 C08 C16 C03 C09 C10 C11 C12 C13 C20 C06 C19
 //@   ensures closureof(ret, "JSON$1")
 //@ func Plain
 //@   inline
-//@   props C14 C08 C16 C03 C09 C10 C11 C12 C13 C20
+//@   props C14 C08 C16 C03 C09 C10 C11 C12 C13 C20 C06 C19
 //@   ensures closureof(ret, "Plain$1")
 
 // error records: one structured log entry per error, under the scan's label, carrying exactly that error; the
 // de-duplicating logger forwards errors unchanged
 //@ func (*logger).Error
 //@   sig l, err
-//@   props C13 C08 C14 C16 C03 C09 C10 C11 C12 C20
+//@   props C13 C08 C14 C16 C03 C09 C10 C11 C12 C20 C06 C19
 //@   observe zap.Error, Error
 //@   entry row entry: [call zap.Error(err) as (f) ; call Error(l.zapl, l.label, bind_fs)] when len(fs) == 1 && fs[0] == f -> exit
 //@ func (*UniqueLogger).Error
 //@   sig l, err
-//@   props C13 C14 C08 C16 C03 C09 C10 C11 C12 C20
+//@   props C13 C14 C08 C16 C03 C09 C10 C11 C12 C20 C06 C19
 //@   observe Error
 //@   entry row forward: [call Error(l.logger, err)] -> exit
